@@ -331,6 +331,77 @@ def run_roland_embedded(cells_list, rep, steps, hdrs=(0, 2, 3, 0xFFF1, 0xFFFF)):
                 rep.case(case, klass="malformed:" + why, nontrivial=True)
 
 
+# ----------------------------------------------------------------------------- (f) long chains in real-size tables
+LONG_LENGTHS = [1, 2, 3, 64, 500, 900, 950, 990, 1000, 1010, 1100, 2000, 4000, 8000]
+LONG_LAYOUTS = ["up", "down", "stride"]
+
+
+def long_cells(layout, L, lo, M):
+    """L distinct cells of lo..lo+M-1 in visiting order"""
+    if layout == "up":
+        return [lo + k for k in range(L)]
+    if layout == "down":
+        return [lo + L - 1 - k for k in range(L)]
+    # stride walk over a prime-sized region (a permutation): fragmented, forward and backward links alternate
+    P = 8191 if M > 8191 else 1021
+    return [lo + (k * 3571) % P for k in range(L)] if L <= P else [lo + k for k in range(L)]
+
+
+def run_long(fmt, layout, rep, steps):
+    """the chain LENGTH as an input dimension: one well-formed chain of L sectors (and the same chain closed into a cycle)
+    in a table of the real size, decoded by the real adapters"""
+    import struct
+    if fmt == "akai":
+        from smpl_extract.akai.data_types import AKAI_SAT_ENTRY_CNT as N
+        lo, M, lengths = 1, N - 1, LONG_LENGTHS + [N - 1]
+    else:
+        from smpl_extract.roland.s7xx import fat as RF
+        N = RF.FAT_NUM_ENTRIES
+        lo, M, lengths = 2, N - 2 - 9 - 2, LONG_LENGTHS + [16000, 32000, N - 2 - 9 - 2]
+    for L in lengths:
+        for closed in (False, True):
+            cells = long_cells(layout, L, lo, M)
+            assert len(set(cells)) == L and max(cells) < lo + M
+            case = {"seam": "long_" + fmt, "layout": layout, "length": L, "closed": closed, "start": cells[0]}
+            if fmt == "akai":
+                T = [RC.A_FREE] * N
+                for a, b in zip(cells, cells[1:]):
+                    T[a] = b
+                T[cells[-1]] = cells[0] if closed else RC.A_END
+                if closed and L == 1:
+                    continue        # (a self-link is part of the small tables)
+                ad = akai_adapter()
+
+                def go():
+                    return list(ad._decode(T, {}, "").get_path(cells[0]))
+            else:
+                T = [0xFFFA, 0] + [0] * (N - 4) + [0xFFFF, 0xFFFF]
+                for k in range(N - 11, N - 2):
+                    T[k] = 0xFFF8
+                for a, b in zip(cells, cells[1:]):
+                    T[a] = b
+                T[cells[-1]] = cells[0] if closed else 0xFFF8
+                if closed and L == 1:
+                    continue
+                raw = struct.pack("<%dH" % N, *T) + b"\x00" * 16
+
+                def go():
+                    return list(RF.FatAreaParser.parse(raw).fat.get_path(cells[0]))
+            st, got = guarded(go, 20.0)
+            steps[0] += L
+            if st == "hang":
+                rep.case(case, ok=False, klass="hang", nontrivial=True, sig=f"long_{fmt}:hang", detail={"observed": "cpu budget exceeded"})
+            elif closed:
+                # a cycle: any reported error or shortened chain is acceptable; termination is what is judged
+                rep.case(case, klass="cycle:" + ("raised" if st == "exc" else "shortened"), nontrivial=True)
+            elif st == "ok" and got == cells:
+                rep.case(case, klass="exact-long", nontrivial=L >= 2)
+            else:
+                rep.case(case, ok=False, klass="wrong-chain", nontrivial=True,
+                         sig=f"long_{fmt}:" + ("raised:" + exc_sig(got) if st == "exc" else "wrong-chain"),
+                         detail={"length": L, "observed": repr(got)[:160]})
+
+
 # ----------------------------------------------------------------------------- (d) streams over chains
 def run_streams(n, rep):
     F = _fat_mod()
@@ -434,7 +505,7 @@ class Check(CheckBase):
             "(c') all tables over 3 (quick) / 4 (thorough) scanned cells x free-cluster count word {1,2,3,4,5,15,16,0xFFF1,0xFFFF} "
             "x the four accepted version-flag pairs (redundant header words must not influence any chain); (d) FileStream.readall over every injective chain of "
             "<=n sectors; (e) the streams the tables hand out (AKAI get_segment, Roland get_file) for every injective chain of <=4 "
-            "(thorough 5) sectors: resolved four times, read to the end twice and in turn through two handles. states = (table,start) combinations; transitions = table element reads performed by the "
+            "(thorough 5) sectors: resolved four times, read to the end twice and in turn through two handles; (f) the chain LENGTH as a dimension: one well-formed chain of 1..8000 / all sectors (AKAI 11385, Roland 65523 clusters) in a table of the real size, laid out ascending / descending / as a stride walk, and the same chain closed into a cycle (judged on termination only). states = (table,start) combinations; transitions = table element reads performed by the "
             "implementation (counted by list proxies, which are also the non-termination detector). "
             "non-trivial = reference chain has >=2 sectors or is malformed")
     assumptions = ["well-formed as worded in the statement: distinct in-range sectors, ends in an end marker (or last "
@@ -476,6 +547,9 @@ class Check(CheckBase):
             sel = pats[::7]
         for i in range(0, len(sel), 24):
             out.append({"seam": "roland_embedded", "cells": [list(p) for p in sel[i:i + 24]]})
+        for fmt in ("akai", "roland"):
+            for layout in LONG_LAYOUTS:
+                out.append({"seam": "long", "fmt": fmt, "layout": layout})
         out.append({"seam": "streams", "n": 5 if self.quick else 6})
         out.append({"seam": "table_streams", "n": 4 if self.quick else 5})
         return out
@@ -506,6 +580,8 @@ class Check(CheckBase):
             run_roland_hdr(shard["prefix"], rep, steps, shard["ncells"])
         elif shard["seam"] == "roland_embedded":
             run_roland_embedded(shard["cells"], rep, steps)
+        elif shard["seam"] == "long":
+            run_long(shard["fmt"], shard["layout"], rep, steps)
         elif shard["seam"] == "streams":
             run_streams(shard["n"], rep)
         elif shard["seam"] == "table_streams":
@@ -530,6 +606,10 @@ class Check(CheckBase):
         elif seam in ("akai_segments", "roland_files"):
             run_table_streams(case["n"], sub)
             sub.violations = [v for v in sub.violations if v["case"].get("chain") == case["chain"] and v["case"]["seam"] == seam]
+            sub.viol_count = len(sub.violations)
+        elif seam in ("long_akai", "long_roland"):
+            run_long(seam[5:], case["layout"], sub, steps)
+            sub.violations = [v for v in sub.violations if v["case"].get("length") == case["length"] and v["case"].get("closed") == case["closed"]]
             sub.viol_count = len(sub.violations)
         elif seam == "filestream":
             F = _fat_mod()
